@@ -28,10 +28,12 @@ def run(chk):
         chk.prove("lemma:" + name, hyps, goal)
     chk.cover("weak add clauses", hy)
     chk.cover("merge clauses", hm)
+    from ..lemmas_log import lemmas_merge_log
+
     for ceil, tag in ((65535, "log16"), (255, "log8")):
         ls, hyl = lemmas_add_log(ceil, tag)
-        for name, hyps, goal in ls:
-            if ":c18:" in name:
+        for name, hyps, goal in ls + lemmas_merge_log(ceil, tag):
+            if ":c18:" in name or "merged-counter>=input" in name:
                 chk.prove("lemma:" + name, hyps, goal)
     # canary: without the ceiling in the hypothesis the estimate could drop -> must be refuted
     name, hyps, goal = lem[0]
